@@ -418,6 +418,21 @@ def bytesPayload (d : Option Payload) : Bool :=
   | some (.bytes b) => !b.isEmpty
   | none => true
 
+/-- a native-script JSON whose `type` is one of the six tags `NativeScript.from_dict` knows -/
+def nativeOK (j : J) : Bool :=
+  match j.field "type" with
+  | .ok (.str t) => nativeTags.contains t
+  | _ => false
+
+theorem nativeJson_ok (j : J) (h : nativeOK j = true) : nativeJson j = .ok (.json j) := by
+  unfold nativeOK at h
+  unfold nativeJson
+  cases hf : j.field "type" with
+  | error e => simp [hf] at h
+  | ok v =>
+    cases v <;> simp [hf] at h
+    simp [J.asStr, h]
+
 /-- reference script absent, or of a language in `langs` with the matching payload kind
 (`0` = native, JSON form; `1..3` = Plutus, bytes) -/
 def scriptOK (langs : List Nat) (s : Option ScriptM) : Bool :=
@@ -425,7 +440,7 @@ def scriptOK (langs : List Nat) (s : Option ScriptM) : Bool :=
   | none => true
   | some s => langs.contains s.lang && (match s.body with
       | .bytes _ => s.lang != 0
-      | .json _ => s.lang == 0)
+      | .json j => s.lang == 0 && nativeOK j)
 
 /-- a UTxO of the ledger: 32-byte transaction id, 28-byte policies, names of at most 32 bytes, unique
 (policy, name) pairs, no empty policy, positive quantities, non-negative ADA, at most one of datum hash /
@@ -699,8 +714,8 @@ theorem bfScript_render (aux : Aux) (s : ScriptM) (h : scriptOK [0, 1, 2, 3] (so
   cases body with
   | json j =>
     simp [scriptOK] at h
-    obtain rfl := h.2
-    simp [bfScript, bfSide, J.lookup, bfScriptInfo, J.field, J.asStr, bfScriptType, t0]
+    obtain ⟨_, rfl, hn⟩ := h
+    simp [bfScript, bfSide, J.lookup, bfScriptInfo, J.field, J.asStr, bfScriptType, t0, nativeJson_ok j hn]
   | bytes b =>
     simp [scriptOK] at h
     rcases h.1 with rfl | rfl | rfl | rfl
@@ -769,6 +784,15 @@ theorem kupoDatums_render (aux : Aux) (u : UTxOModel) (hw : WellFormed u) (hb : 
         intro he; apply hne; rw [h2, hexStr_inj _ _ he]
       simp [kupoDatums, h3, hashIfTruthy_str _ hl, kupoDatumTypeJ, h2, J.truthy, kupoDatum, optStr, J.asStr, kupoSide,
         J.lookup, J.field, J.eqPrim, hdiff, hexStr_ne_empty b hbne, fromHex_hexStr]
+
+/-! ### whole responses -/
+
+theorem parseList_map {α : Type} (f : J → Res α) (r : α → J) (us : List α) (h : ∀ u ∈ us, f (r u) = .ok u) :
+    parseList f (us.map r) = .ok us := by
+  induction us with
+  | nil => simp [parseList]
+  | cons u rest ih =>
+    simp [parseList, h u (by simp), ih (fun x hx => h x (by simp [hx]))]
 
 /-! ### entries in any order -/
 
